@@ -518,6 +518,7 @@ fn run_fixture(label: &str, emb: VfsPath, phys: VfsPath, depth: usize, out: &mut
                         &e,
                         p,
                         Some(&format!("{}/copy-target", parent_of(p))),
+                        name.contains("dir") || name.contains("walk"),
                     ) {
                         if !name.contains("outside") {
                             out.vio.push(mk(format!("{}|{}|{}", name, cls, k), w));
